@@ -5,7 +5,7 @@ from __future__ import annotations
 import copy
 
 from checks import c01, c02
-from simkit import nodes, refdec, refenc, workload as W
+from simkit import nodes, refdec, refenc, wire, workload as W
 from simkit import terms as T
 from simkit.kernel import HarnessError
 from simkit.pipe import open_frontend
@@ -28,7 +28,7 @@ ASSUMPTIONS = ["the reference encoder's output is first accepted by the referenc
 PROBES = ["non_lru_eviction", "odd_split", "redundant_entry", "explicit_entry_id", "explicit_name_id",
           "explicit_prefix_id", "unrepeated_equal_term", "elided_graph_end", "nonsequential_slot",
           "empty_frames", "metadata_frames", "repeated_options", "version2", "nondelimited",
-          "prefix_table_off", "datatype_table_off", "tables_4096", "eviction"]
+          "prefix_table_off", "datatype_table_off", "tables_4096", "eviction", "ambiguous_leading_frame"]
 SHRINK_LISTS = ["items"]
 
 
@@ -62,6 +62,8 @@ def generate(rng, run, tier):
     plan["integration"] = integration
     plan["consumer"] = rng.choice(["flat", "flat", "grouped", "to_graph", "plugin"])
     plan["frontend"] = rng.choice(["bytesio", "buffered", "raw", "seekable_buffered", "gzip", "duck", "rwpair"])
+    if plan["delimited"] and rng.random() < 0.004:
+        plan["ambiguous_lead"] = True       # first frame: no rows, metadata only, exactly 10 bytes (0A 7A 08 ...)
     return plan
 
 
@@ -91,6 +93,13 @@ def build_stream(plan, sim):
     """Encode with the reference encoder and self-check with the reference decoder."""
     items = items_of(plan)
     data, frames, stats = refenc.encode(items, plan["opts"], sim, plan["knobs"], plan["delimited"])
+    if plan.get("ambiguous_lead") and plan["delimited"]:
+        lead = wire.Frame([], [("ab", b"cd")])
+        if len(lead.encode()) != 10:
+            raise HarnessError("ambiguous leading frame is not 10 bytes long")
+        frames = [lead] + [f for f in frames]
+        data = wire.write_stream(frames, True)
+        sim.count("ambiguous_leading_frame")
     r = refdec.decode_stream(data, plan["delimited"], strict=False)
     want = [("ns", i[1], ("iri", i[2])) if i[0] == "ns" else i for i in items]
     if not r.ok:
@@ -214,7 +223,9 @@ def execute(plan, sim):
     try:
         res = run_consumer(integration, plan["consumer"], fobj, physical)
     except Exception as e:  # noqa: BLE001
-        return [{"clause": "C04.parse_raised", "sig": {"exc": type(e).__name__, "consumer": plan["consumer"]},
+        amb = bool(frames and not frames[0].rows and frames[0].metadata and len(frames[0].encode()) == 10)
+        return [{"clause": "C04.parse_raised", "sig": {"exc": type(e).__name__, "consumer": plan["consumer"],
+                                                      "leading_metadata_frame_of_10_bytes": amb},
                  "msg": f"{integration} {plan['consumer']} raised {type(e).__name__}: {e}"}], None
     v = check_against("C04", integration, res, r, physical)
     nonconv = sum(stats.get(k, 0) for k in ("non_lru_eviction", "odd_split", "redundant_entry",
